@@ -434,7 +434,7 @@ CLOSE_PAIRS = [
     # unequal but close operands (relative 1e-9 ... 1e-5), large near-equal integers, rounding-noise pairs
     ("100000", "100001"), ("1000000", "1000001"), ("0.1+0.2", "0.3"), ("1000001/1000000", "1"), ("2**20+1", "2**20"),
     ("1e9", "1000000001"), ("1.000001", "1.0000011"), ("3*0.1", "0.3"), ("1.00000001", "1"), ("123456789", "123456788"),
-    ("0.30000000000000004", "0.3"), ("1e15+1", "1e15"), ("2/3", "0.6666666"), ("1e-9", "1.00001e-9"),
+    ("0.30000000000000004", "0.3"), ("1e15+1", "1e15"), ("2/3", "0.6666666"), ("0.000000001", "0.00000000100001"),
     # and exactly equal / clearly different ones
     ("0.5+0.25", "0.75"), ("2*3", "6"), ("1", "2"), ("7", "7"),
 ]
